@@ -43,6 +43,9 @@ type Unit struct {
 	Roots    []string `json:"roots"`
 	// Sweep: every function of these packages matching the prefix list is a root (safety only)
 	SweepFuncs []string `json:"sweep_funcs,omitempty"`
+	// Lockset: run the static lock-discipline analysis (type contracts protected_by / immutable / ...) over every
+	// function of the unit's packages
+	Lockset bool `json:"lockset,omitempty"`
 }
 
 type PropConfig struct {
@@ -167,6 +170,24 @@ func runUnit(u Unit, cfg *PropConfig, tier string, workdir string, res *checkRes
 		if err := e.RunRoot(f); err != nil {
 			res.engineErrors = append(res.engineErrors, err.Error())
 		}
+	}
+	if u.Lockset {
+		pp := map[string]bool{}
+		for _, p := range e.pkgs {
+			pp[p.PkgPath] = true
+		}
+		func() {
+			defer func() {
+				if r := recover(); r != nil {
+					if a, ok := r.(execAbort); ok {
+						res.engineErrors = append(res.engineErrors, "lockset: "+a.msg)
+						return
+					}
+					panic(r)
+				}
+			}()
+			e.RunLockset(pp, cfg.ID)
+		}()
 	}
 	res.engineErrors = append(res.engineErrors, e.errors...)
 	for k := range e.funcsTouched {
@@ -326,6 +347,9 @@ func Check(id, tier string) int {
 	var knownHit []string
 	knownRefuted := 0
 	replayDir := filepath.Join(verifDir, "replays", id)
+	if d := os.Getenv("GOVC_REPLAY_DIR"); d != "" {
+		replayDir = filepath.Join(d, id)
+	}
 	var samples []interface{}
 	for _, g := range res.groups {
 		res.obligations++
